@@ -217,8 +217,12 @@ def run_case(case):
                                 f"update {k - 1} had set {want}")
         if 1 <= k < len(dev.errors):
             length, ftype, rd, end = frames.parse(back)
-            wrong = sum(1 for d in rd[1:]
-                        if d.wkc != expected.get(d.wkc_pos, None))
+            # independent of the library's own expectation: the simulated
+            # terminals answer like healthy ones, a counter is wrong exactly
+            # where the case injected a fault
+            inj = cycles[min(k, ncyc)]["wkc"]
+            wrong = sum(1 for i in range(1, len(rd))
+                        if inj.get(i) or inj.get(str(i)))
             inc = dev.errors[k] - dev.errors[k - 1]
             if wrong:
                 faults += 1
